@@ -383,7 +383,8 @@ class BroadcastStream(Stream):
             "(in-memory leaves), at the end (DB rows, state reloaded from the DB, get_broadcast and "
             "get_updated_rtconfig for sample tasks); non-trivial = at least two effective ops; thorough adds all "
             "op sequences of length <= 3 over a 12-op alphabet")
-    n_hashseeds = 8
+    n_hashseeds = 16
+    impl_timeout = 3000
     shard_size = 40
     needs_scratch_home = True
 
@@ -420,7 +421,7 @@ class BroadcastStream(Stream):
 
     def gen(self, rng, tier):
         cases = []
-        n = 260 if tier == "quick" else 7000
+        n = 260 if tier == "quick" else 4000
         for i in range(n):
             mix = self.MIX_SINGLE if i % 2 == 0 else self.MIX_ALL
             c = gen_case(rng, mix, narrow=(i % 3 != 0))
@@ -509,11 +510,22 @@ class BroadcastStream(Stream):
                 assert keys[0] == "runtime"
                 return dense({})
 
+        # an empty run DB is made once per process with the real start-up path
+        # (on_workflow_start(is_restart=False) creates every table); each case
+        # starts from a copy of it, opened the way a restart opens an existing DB
+        tmpl = tempfile.mkdtemp(prefix="c22-tmpl-")
+        for sub in ("pri", "pub"):
+            os.makedirs(os.path.join(tmpl, sub))
+        t0 = WorkflowDatabaseManager(os.path.join(tmpl, "pri"), os.path.join(tmpl, "pub"))
+        t0.on_workflow_start(is_restart=False)
+        t0.on_workflow_shutdown()
+
         def mk(d, anc, restart):
-            for sub in ("pri", "pub"):
-                os.makedirs(os.path.join(d, sub), exist_ok=True)
+            if not restart:
+                for sub in ("pri", "pub"):
+                    shutil.copytree(os.path.join(tmpl, sub), os.path.join(d, sub))
             dbm = WorkflowDatabaseManager(os.path.join(d, "pri"), os.path.join(d, "pub"))
-            dbm.on_workflow_start(is_restart=restart)
+            dbm.on_workflow_start(is_restart=True)
             schd = SimpleNamespace(
                 get_run_mode=lambda: RunMode.LIVE, workflow_db_mgr=dbm,
                 data_store_mgr=SimpleNamespace(delta_broadcast=lambda: None),
@@ -581,7 +593,10 @@ class BroadcastStream(Stream):
                         pass
                 shutil.rmtree(d, ignore_errors=True)
 
-        return [one(c) for c in cases]
+        try:
+            return [one(c) for c in cases]
+        finally:
+            shutil.rmtree(tmpl, ignore_errors=True)
 
     # -- canonical DB rows ----------------------------------------------------
     @staticmethod
